@@ -1,5 +1,46 @@
-(** C07 placeholder while the parse proofs are being written. *)
-From Yarl Require Import Model.Parse.
-Example C07_sanity : split_netloc [117; 58; 112; 64; 104; 58; 56; 48] = Ok (Some [117], Some [112], Some [104], Some 80%N).
+(** C07 - parsing is the RFC 3986 decomposition of the input.  Statements only. *)
+From Yarl Require Import Base.PyStr Model.Parse Model.Url Spec.Rfc3986Split Proofs.ParseProofs.
+
+(** For every input string (all code points, all lengths) and every NFKC oracle: when
+    the parser accepts, scheme, authority, path, query and fragment are the Appendix B
+    decomposition of the string after stripping leading C0-control/space characters
+    and deleting tab, CR, LF. *)
+Theorem C07_split_is_rfc : forall (nfkc : str -> str) (s : str) p,
+  split_url nfkc s = Ok p -> p = rfc_split (spec_clean s).
+Proof. exact split_url_is_rfc. Qed.
+Print Assumptions C07_split_is_rfc.
+
+(** the parser fails only with ValueError (unbalanced/invalid brackets, NFKC screen) *)
+Theorem C07_split_errors : forall (nfkc : str -> str) (s : str) e,
+  split_url nfkc s = Err e -> e = ValueError.
+Proof. exact split_url_errors. Qed.
+Print Assumptions C07_split_errors.
+
+(** the cleaning step is exactly "strip leading characters <= U+0020, delete TAB/LF/CR"
+    (regenerated WHATWG tables) *)
+Theorem C07_clean : forall s : str, clean_url s = spec_clean s.
+Proof. exact clean_url_spec. Qed.
+Print Assumptions C07_clean.
+
+(** the regenerated scheme alphabet is RFC 3986's *)
+Theorem C07_scheme_chars : forall c, in_set c scheme_chars = Spec.Rfc3986.rfc_scheme_char c.
+Proof. exact scheme_chars_rfc. Qed.
+Print Assumptions C07_scheme_chars.
+
+(** with encoded=True the five raw components are stored verbatim *)
+Theorem C07_encoded_verbatim : forall (O : oracles) (s : str) u,
+  pre_encoded_url O s = Ok u ->
+  (u_scheme u, u_netloc u, u_path u, u_query u, u_fragment u) = rfc_split (spec_clean s)
+  /\ u_eager u = None.
+Proof.
+  intros O s u H. unfold pre_encoded_url in H.
+  destruct (split_url (o_nfkc O) s) as [[[[[a b] c] d] e]|] eqn:E; cbn in H; [|discriminate].
+  inversion H; subst. cbn. split; [|reflexivity]. now apply (split_url_is_rfc (o_nfkc O)).
+Qed.
+Print Assumptions C07_encoded_verbatim.
+
+Example C07_example :
+  rfc_split (spec_clean [32; 9; 72; 116; 116; 112; 58; 47; 47; 117; 64; 104; 58; 56; 47; 112; 63; 113; 35; 102])
+  = ([104; 116; 116; 112], [117; 64; 104; 58; 56], [47; 112], [113], [102]).
 Proof. reflexivity. Qed.
-Print Assumptions C07_sanity.
+Print Assumptions C07_example.
